@@ -356,7 +356,18 @@ func ruleNumericHelpers(c *Ctx) {
 				parents := parentMap(fd.Body)
 				be, _ := loop.Cond.(*ast.BinaryExpr)
 				var iv types.Object
-				if be == nil || !countingLoop(info, parents, be) {
+				severalCounters := false
+				if as, ok := loop.Init.(*ast.AssignStmt); ok && len(as.Lhs) > 1 {
+					severalCounters = true
+				}
+				if as, ok := loop.Post.(*ast.AssignStmt); ok && len(as.Lhs) > 1 {
+					severalCounters = true
+				}
+				if (be == nil || !countingLoop(info, parents, be)) && severalCounters {
+					// `for level, path := 0, index; level < depth; level, path = level+1, path>>1`: a second quantity is
+					// carried along with the counter; which bit of the index it holds at each level is not read here
+					unread = append(unread, "the loop steps more than one variable (a second quantity carried along with the level): which bit selects the side at each level is not read")
+				} else if be == nil || !countingLoop(info, parents, be) {
 					probs = append(probs, "the loop is not `for i := 0; i < depth; i++`")
 				} else {
 					// i < depth, or depth > i
